@@ -51,6 +51,7 @@ type VC struct {
 	inputs   []WatchTerm
 	assumed  map[string]bool // assumptions recorded for evidence
 	nosafe   bool
+	declsCache string // type declarations, frozen before obligations are solved in parallel
 	entryAlloc Term
 	nondet   bool // the VC abstracts (loop havoc, contract application, effect-free results): models need not be real executions
 	// for replay
@@ -235,6 +236,9 @@ func (vc *VC) baseHeap(base string, v Sort) Term {
 			}
 			if ridOf != "" {
 				vc.axioms = append(vc.axioms, fmt.Sprintf("(forall ((q!r Ref)) (! (< %s %s) :pattern ((select %s q!r))))", ridOf, vc.entryAlloc.S, name))
+			}
+			if v == SSlice {
+				vc.axioms = append(vc.axioms, fmt.Sprintf("(forall ((q!r Ref)) (! (and (<= 0 (slen (select %s q!r))) (<= (slen (select %s q!r)) (scap (select %s q!r))) (< (scap (select %s q!r)) 4611686018427387904) (=> (= (rid (sbase (select %s q!r))) 0) (= (scap (select %s q!r)) 0))) :pattern ((select %s q!r))))", name, name, name, name, name, name, name))
 			}
 		}
 	}
